@@ -377,6 +377,249 @@ func runC02(c *Ctx) {
 	c02Primitives(c, all)
 	c02Misc(c)
 	c02SkipArgs(c)
+	c02Independence(c, sites)
+	c02SignerBinding(c)
+}
+
+// c02Independence (R02f): within one function, a digest comparison must not be skipped
+// depending on the presence/shape of ANOTHER comparison's operands ("page hashes are a
+// superset, so skip the image hash"): every protected digest is checked on its own.
+func c02Independence(c *Ctx, sites []cmpSite) {
+	p := c.P
+	c.Rule("R02f", "a digest comparison is never made conditional on another comparison's expected value", 3)
+	byFn := map[*ssa.Function][]cmpSite{}
+	for _, s := range sites {
+		byFn[s.fn] = append(byFn[s.fn], s)
+	}
+	operands := func(s cmpSite) []ssa.Value {
+		switch x := s.instr.(type) {
+		case *ssa.Call:
+			return x.Call.Args
+		case *ssa.BinOp:
+			return []ssa.Value{x.X, x.Y}
+		}
+		return nil
+	}
+	// the operand values themselves (and what a merged operand was merged from): a
+	// condition "about another comparison's expected value" mentions exactly these
+	roots := func(s cmpSite) map[ssa.Value]bool {
+		out := map[ssa.Value]bool{}
+		for _, o := range operands(s) {
+			for _, lf := range phiLeaves(o, nil, map[*ssa.Phi]bool{}) {
+				if _, isConst := lf.V.(*ssa.Const); isConst {
+					continue
+				}
+				out[lf.V] = true
+				out[stripConv(lf.V)] = true
+			}
+			out[o] = true
+		}
+		return out
+	}
+	n := 0
+	var fns []*ssa.Function
+	for f := range byFn {
+		fns = append(fns, f)
+	}
+	sort.Slice(fns, func(i, j int) bool { return p.FName(fns[i]) < p.FName(fns[j]) })
+	for _, fn := range fns {
+		ss := byFn[fn]
+		if len(ss) < 2 {
+			continue
+		}
+		for i, s := range ss {
+			own := roots(s)
+			others := map[ssa.Value]bool{}
+			for j, o := range ss {
+				if j == i {
+					continue
+				}
+				for v := range roots(o) {
+					if !own[v] {
+						others[v] = true
+					}
+				}
+			}
+			n++
+			key := fmt.Sprintf("%s %s#%d independent", p.FName(fn), s.what, i+1)
+			var bad []string
+			for _, b := range fn.Blocks {
+				ifi, ok := b.Instrs[len(b.Instrs)-1].(*ssa.If)
+				if !ok || b == s.instr.Block() {
+					continue
+				}
+				dep := false
+				for si := range b.Succs {
+					if !reach(fn, []*ssa.BasicBlock{fn.Blocks[0]}, map[edge]bool{{b.Index, si}: true}, nil)[s.instr.Block().Index] {
+						dep = true
+					}
+				}
+				if !dep {
+					continue
+				}
+				// the condition is the other comparison's own outcome (sequential checks): fine
+				isOtherOutcome := false
+				for j, o := range ss {
+					if j != i && dependsOn(ifi.Cond, func(x ssa.Value) bool { return x == o.val }) {
+						isOtherOutcome = true
+					}
+				}
+				if isOtherOutcome {
+					continue
+				}
+				usesOther := condMentions(ifi.Cond, others)
+				usesOwn := condMentions(ifi.Cond, own)
+				if usesOther && !usesOwn {
+					bad = append(bad, p.Pos(ifi.Pos())+" "+short(ifi.Cond.String(), 60)+" in "+b.String())
+				}
+			}
+			c.Check(len(bad) == 0, "R02f", key, p.Pos(s.instr.Pos()), "guarded only by its own operands / flags", fmt.Sprintf("this digest comparison is skipped depending on another comparison's expected value (condition at %v): content protected only by this digest can be altered undetected", bad))
+		}
+	}
+	c.Check(n >= 3, "R02f", "functions with several comparisons", "-", fmt.Sprintf("%d sites", n), "no function with more than one digest comparison found")
+}
+
+// condMentions: does the condition talk about one of the values directly — through
+// comparisons, negation, merges, conversions and len()/cap() only (not through calls:
+// an error check of a call that happened to take the value as an argument is not a
+// condition about that value)?
+func condMentions(cond ssa.Value, set map[ssa.Value]bool) bool {
+	seen := map[ssa.Value]bool{}
+	var walk func(v ssa.Value, d int) bool
+	walk = func(v ssa.Value, d int) bool {
+		if v == nil || seen[v] || d > 12 {
+			return false
+		}
+		seen[v] = true
+		if set[v] {
+			return true
+		}
+		switch x := v.(type) {
+		case *ssa.BinOp:
+			return walk(x.X, d+1) || walk(x.Y, d+1)
+		case *ssa.UnOp:
+			if x.Op == token.NOT || x.Op == token.SUB {
+				return walk(x.X, d+1)
+			}
+		case *ssa.Phi:
+			for _, e := range x.Edges {
+				if walk(e, d+1) {
+					return true
+				}
+			}
+		case *ssa.Convert:
+			return walk(x.X, d+1)
+		case *ssa.ChangeType:
+			return walk(x.X, d+1)
+		case *ssa.Call:
+			if bi, ok := x.Call.Value.(*ssa.Builtin); ok && (bi.Name() == "len" || bi.Name() == "cap") {
+				return walk(x.Call.Args[0], d+1)
+			}
+		}
+		return false
+	}
+	return walk(cond, 0)
+}
+
+// c02SignerBinding (R02g): the certificate reported as the signer is selected only under
+// an equality that binds it to the key / identifier that verified the signature.
+func c02SignerBinding(c *Ctx) {
+	p := c.P
+	c.Rule("R02g", "the certificate reported as signer is chosen only under an equality binding it to the verifying key / signer identifier", 3)
+	// xmldsig.Signature.Leaf
+	if fn := p.Func("lib/xmldsig.(Signature).Leaf"); fn == nil {
+		c.Undecided("R02g", "xmldsig.Signature.Leaf", "-", "function not found")
+	} else {
+		c.Analysed(p.FName(fn))
+		same := isSameKeyGuard(p, nil)
+		n := 0
+		for _, r := range returnsOf(fn) {
+			if isNilConst(retVal(r, 0)) {
+				continue
+			}
+			n++
+			missing, path := p.unguardedFromEntry(fn, r, same)
+			c.Check(len(missing) == 0, "R02g", fmt.Sprintf("%s non-nil return#%d", p.FName(fn), n), p.Pos(r.Pos()), "a certificate is reported as leaf only if SameKey(cert.PublicKey, verifying key)", "a certificate that does not carry the key that verified the signature can be reported as the signer (identity spoofing with a pasted certificate)", path...)
+		}
+		c.Check(n > 0, "R02g", p.FName(fn)+" returns a leaf", p.Pos(fn.Pos()), "", "Leaf never returns a certificate")
+	}
+	// pkcs7 FindCertificate
+	if fn := p.Func("lib/pkcs7.(*SignerInfo).FindCertificate"); fn == nil {
+		c.Undecided("R02g", "(*SignerInfo).FindCertificate", "-", "function not found")
+	} else {
+		c.Analysed(p.FName(fn))
+		iss := p.callGuard("issuer equal", []string{"bytes.Equal"}, -1, IsTrue, func(ci ssa.CallInstruction) bool {
+			a, b := ci.Common().Args[0], ci.Common().Args[1]
+			f := func(v ssa.Value, name string) bool {
+				return dependsOn(v, func(x ssa.Value) bool {
+					_, fl, _ := p.fieldLoad(x)
+					_, fl2, _ := p.fieldAddr(x)
+					return fl == name || fl2 == name
+				})
+			}
+			return (f(a, "RawIssuer") && f(b, "IssuerName")) || (f(b, "RawIssuer") && f(a, "IssuerName"))
+		})
+		ser := Guard{Name: "serial equal", Match: func(f Fact) bool {
+			bo, ok := f.V.(*ssa.BinOp)
+			if !ok || !isIntConst(bo.Y, 0) || !((bo.Op == token.EQL && f.Kind == IsTrue) || (bo.Op == token.NEQ && f.Kind == IsFalse)) {
+				return false
+			}
+			call, ok := bo.X.(*ssa.Call)
+			return ok && p.calleeName(call.Common()) == "(*math/big.Int).Cmp"
+		}}
+		n := 0
+		for _, r := range p.successReturns(fn) {
+			n++
+			missing, path := p.unguardedFromEntry(fn, r, iss, ser)
+			c.Check(len(missing) == 0, "R02g", fmt.Sprintf("%s success-return#%d", p.FName(fn), n), p.Pos(r.Pos()), "signer certificate matched by issuer and serial", fmt.Sprintf("a certificate is selected as signer without %v", missing), path...)
+		}
+	}
+	// APK v2: leaf is the certificate whose SubjectPublicKeyInfo equals the verifying key
+	if fn := p.Func("signers/apk.(*apkSigner).Verify"); fn == nil {
+		c.Undecided("R02g", "(*apkSigner).Verify", "-", "function not found")
+	} else {
+		c.Analysed(p.FName(fn))
+		eq := p.callGuard("SPKI equal", []string{"bytes.Equal"}, -1, IsTrue, func(ci ssa.CallInstruction) bool {
+			a, b := ci.Common().Args[0], ci.Common().Args[1]
+			f := func(v ssa.Value, name string) bool {
+				return dependsOn(v, func(x ssa.Value) bool {
+					_, fl, _ := p.fieldLoad(x)
+					_, fl2, _ := p.fieldAddr(x)
+					return fl == name || fl2 == name
+				})
+			}
+			return (f(a, "RawSubjectPublicKeyInfo") && f(b, "PublicKey")) || (f(b, "RawSubjectPublicKeyInfo") && f(a, "PublicKey"))
+		})
+		ok := false
+		// the value stored as Certificate / leaf in the returned signature comes from a phi whose
+		// non-nil leaves are range values guarded by eq
+		for _, b := range fn.Blocks {
+			for _, in := range b.Instrs {
+				ph, isPhi := in.(*ssa.Phi)
+				if !isPhi || typeName(p, ph.Type()) != "*crypto/x509.Certificate" {
+					continue
+				}
+				all := true
+				any := false
+				for _, lf := range phiLeaves(ph, nil, map[*ssa.Phi]bool{}) {
+					if isNilConst(lf.V) {
+						continue
+					}
+					any = true
+					if leafUnguarded(fn, lf, eq) {
+						all = false
+					}
+				}
+				if any && all {
+					ok = true
+				}
+				if any && !all {
+					ok = false
+				}
+			}
+		}
+		c.Check(ok, "R02g", p.FName(fn)+" leaf bound to the verifying key", p.Pos(fn.Pos()), "leaf = certificate whose SubjectPublicKeyInfo equals the signer block's public key", "the APK signer certificate is not selected by equality with the key that verified the signature")
+	}
 }
 
 // c02SkipArgs (R02c, inter-procedural part): the argument bound to a `skipDigests`-style
